@@ -25,7 +25,9 @@ RULE = ('histories of export / re-export (another object at an exported path) / 
         'reference decode); every export / unexport emitted exactly one InterfacesAdded / InterfacesRemoved naming that '
         'path and interface set. Non-trivial = the exported set contains a textual-but-not-segment prefix pair or a '
         'grandchild without its parent; distinct = distinct history JSON. The two interfaces share one property NAME (Rw: i on T1, s on T2); '
-        'class variant 3 re-declares the first of its two inherited interfaces by name and inherits the second.')
+        'class variant 3 re-declares the first of its two inherited interfaces by name and inherits the second. bus_tree: the tree '
+        'the bus daemon itself exports, introspected at ancestors, itself, siblings and strangers. Every fourth export goes through '
+        'a registered adapter.')
 ASSUMPTIONS = ['properties are assigned before export; only exported paths are unexported']
 
 POOL = ['/', '/a', '/a/b', '/a/bc', '/a/b/c', '/a/b/c/d', '/ab', '/a_b', '/b']
@@ -439,6 +441,67 @@ def random_history(draw, tier):
     return {'pool': POOL, 'ops': ops}
 
 
+# --------------------------------------------------------------------------
+# the same machinery hosted by somebody else: the bus daemon exports itself at /org/freedesktop/DBus
+
+BUS_PATHS = ['/', '/org', '/org/freedesktop', '/org/freedesktop/DBus', '/org/freedesktopX', '/org/freedesktop/DBus/x', '/nope']
+
+
+def enum_bus_tree(tier):
+    for order in (BUS_PATHS, list(reversed(BUS_PATHS))):
+        for little in (True, False):
+            yield {'paths': order, 'little': little}
+
+
+def run_bus_tree(case):
+    from .. import simnet as N
+    out = []
+    try:
+        rig = N.BusRig()
+        c = rig.attach()
+        c.little = case['little']
+    except N.RigFailure as e:
+        return [Disc('bus_tree.attach-failed', str(e))]
+    exported = {'/org/freedesktop/DBus'}
+    try:
+        for p in case['paths']:
+            s = c.send(1, {1: p, 2: 'org.freedesktop.DBus.Introspectable', 3: 'Introspect', 6: 'org.freedesktop.DBus'})
+            rig.pump_all()
+            r = [m for m in c.inbox if m['type'] in (2, 3) and m['fields'].get(5) == s]
+            if len(r) != 1:
+                out.append(Disc('bus_tree.reply-count', 'Introspect %s on the bus: %d replies' % (p, len(r))))
+                continue
+            d = r[0]
+            base = '/' if p == '/' else p + '/'
+            kids = sorted({q[len(base):].split('/')[0] for q in exported if _is_under(q, p)})
+            visible = p in exported or bool(kids)
+            if d['type'] == 3:
+                if visible:
+                    out.append(Disc('bus_tree.fails-for-visible-path', 'Introspect %s on the bus daemon: %r %r' % (
+                        p, d['fields'].get(4), d['body'])))
+                continue
+            if not visible:
+                out.append(Disc('bus_tree.succeeds-for-invisible-path', p))
+                continue
+            try:
+                xml = d['body'][0]
+                root = ET.fromstring(xml[xml.index('<node'):])
+                got = sorted(el.get('name') for el in root.findall('node'))
+                ifn = sorted(el.get('name') for el in root.findall('interface'))
+            except Exception as e:
+                out.append(Disc('bus_tree.xml-unparseable', '%s: %s' % (p, e)))
+                continue
+            if got != kids:
+                out.append(Disc('bus_tree.children', 'Introspect %s: expected children %r got %r' % (p, kids, got)))
+            if p in exported and 'org.freedesktop.DBus' not in ifn:
+                out.append(Disc('bus_tree.interfaces', repr(ifn)))
+            if p not in exported and ifn:
+                out.append(Disc('bus_tree.interfaces-on-unexported-path', '%s: %r' % (p, ifn)))
+    except Exception as e:
+        out.append(Disc(exc_key(e, 'bus_tree.exception'), exc_detail(e)))
+    return out
+
+
 SUBCHECKS = [
     Subcheck('enum', run_history, classify, enumerate=enum_histories, shards={'quick': 8, 'thorough': 16},
              exhaustive_note='all admissible export/unexport histories of length <=4 (quick) / <=5 (thorough) over the '
@@ -449,4 +512,7 @@ SUBCHECKS = [
              exhaustive_note='3 object classes x {announcing, silent} property changed after export x 3 continuations'),
     Subcheck('random', run_history, classify, strategy=lambda tier: random_history(tier),
              n={'quick': 60, 'thorough': 600}),
+    Subcheck('bus_tree', run_bus_tree, lambda c: (True, ['bus_daemon_tree']), enumerate=enum_bus_tree, shards={'quick': 1, 'thorough': 1},
+             exhaustive_note='the object tree the bus daemon itself exports (/org/freedesktop/DBus), introspected at its ancestors, '
+                             'itself, a textual-prefix sibling, a descendant and a stranger, in two orders and byte orders'),
 ]
